@@ -123,8 +123,19 @@ func C02(c Ctx) *report.Report {
 	}
 	rep.Evaluations = next + len(calc)
 	rep.DistinctNontrivial = countNontrivial(hs) + len(calc)
-	rep.Rule = histRule + "; plus direct calls of CalculatePoolUnits / CalculateWithdrawal / CalculateWithdrawalFromUnits / unit conversions on generated inputs (units and depths 1..1e33)"
+	rep.Rule = histRule + "; plus direct calls of CalculatePoolUnits / CalculateWithdrawal / CalculateWithdrawalFromUnits / unit conversions on generated inputs (units and depths 1..1e33); plus queued removals: two margin-enabled pools with liabilities, 8-15 removal requests of four providers queued through the message server, GetRemovalQueueUnitsForLP observed for every provider and pool after each, then removals by units around units - queued as transactions"
 	writeHistFiles(c, rep, "cases_C02", hs, 450)
 	writeCalcFiles(c, rep, "cases_C02_calc", calc, 400)
+	// queued removals (built through the message server on one context, see c02queue.go)
+	qc := c02Queue(c, rep, rng, c.N(6, 80))
+	rep.Evaluations += len(qc)
+	for i := 0; i*500 < len(qc); i++ {
+		end := (i + 1) * 500
+		if end > len(qc) {
+			end = len(qc)
+		}
+		writeCases(c, rep, fmt.Sprintf("cases_C02_queue_%d.v", i), "From Sif Require Import Check.Queue.\n",
+			fmt.Sprintf("Definition cases : list (list int) := %s.\nDefinition M := Eval vm_compute in (queue_mismatches cases).\n", coqList(qc[i*500:end])))
+	}
 	return rep
 }
